@@ -442,6 +442,16 @@ class Mat:
         m = build_param_law(self.law, self.P, 3, False)
         return m.C, m.S
 
+    def kcond(self):
+        """tolerance factor: the oracle and the code both go through inverses of the *3D* material
+        matrix (Schur complement / inverse of the compliance block), so rounding scales with its
+        condition number, not with the one of the reduced 2D matrix"""
+        if self.law == "aniso":
+            c = cond_of(self.Ckm)
+        else:
+            c = cond_of(self.material_C3()[0])
+        return max(1.0, c / 10)
+
     def expected(self):
         """oracle (C, S) of the law in the global frame, from the material 3D matrices"""
         Cm, Sm = self.material_C3()
@@ -479,10 +489,11 @@ def check_spd(case, rec):
     n = 3 if mat.dim == 2 else 6
     rec.require(field_shape_ok(C, mat.shape, n) and field_shape_ok(S, mat.shape, n), "shape",
                 f"C {C.shape} S {S.shape} for field shape {mat.shape}", **sig)
-    rec.close(C - tr(C), amax(C), TOL, "C_symmetric", "", **sig)
-    rec.close(S - tr(S), amax(S), TOL, "S_symmetric", "", **sig)
     wC = np.linalg.eigvalsh((C + tr(C)) / 2)
     wS = np.linalg.eigvalsh((S + tr(S)) / 2)
+    kc = max(1.0, float(np.max(np.abs(wC[..., -1] / wC[..., 0]))) / 10)  # C or S is a computed inverse
+    rec.close(C - tr(C), amax(C) * kc, TOL, "C_symmetric", "", **sig)
+    rec.close(S - tr(S), amax(S) * kc, TOL, "S_symmetric", "", **sig)
     rec.require(np.all(wC > 0), "C_positive_definite", f"min eig {wC.min():.3e}", **sig)
     rec.require(np.all(wS > 0), "S_positive_definite", f"min eig {wS.min():.3e}", **sig)
     cond = float(np.max(wC[..., -1] / wC[..., 0]))
@@ -564,8 +575,7 @@ def check_frame(case, rec):
     law = mat.build()
     C, S = np.asarray(law.C), np.asarray(law.S)
     Cexp, Sexp = mat.expected()
-    cond = cond_of(Cexp)
-    kc = max(1.0, cond / 10)
+    kc = mat.kcond()
     rec.close(C - Cexp, amax(Cexp) * kc, TOL, "C_equals_rotated_tensor",
               f"{mat.law} dim={mat.dim} ps={mat.ps} q={case['axes']['q']}", **sig)
     rec.close(S - Sexp, amax(Sexp) * kc, TOL, "S_equals_rotated_tensor",
@@ -617,7 +627,7 @@ def check_notation(case, rec):
     CV, CK = np.asarray(lawV.C), np.asarray(lawK.C)
     SV, SK = np.asarray(lawV.S), np.asarray(lawK.S)
     Cexp, Sexp = mat.expected()
-    kc = max(1.0, cond_of(Cexp) / 10)
+    kc = mat.kcond()
     sigK = dict(sig, notation="km")
     rec.close(CK - Cexp, amax(Cexp) * kc, TOL, "km_input_equals_tensor", f"n={n} dim={mat.dim}", **sigK)
     rec.close(SK - Sexp, amax(Sexp) * kc, TOL, "km_input_equals_tensor_S", f"n={n} dim={mat.dim}", **sigK)
